@@ -27,6 +27,14 @@ import (
 //	hremove <key> <ms>           hold c.mu, let virtual time advance by ms (clamped to the next timer
 //	                             deadline, whose timers then fire and queue on c.mu), real
 //	                             removeInternal(key), unlock      -> <item|nil> slept=<ms>
+//	hrace <key> <item> <ms> <rat|rta|tra> <r|c0|c1>
+//	                             the three-party race through the PUBLIC API: hold c.mu over the next deadline
+//	                             (the due timers fire and queue on c.mu), release it, then on ONE processor
+//	                             (GOMAXPROCS(1): a goroutine made runnable by Unlock cannot run before this one
+//	                             yields) call  R = Remove(key) | Clear(false) | Clear(true)  and  A = Add(key,item)
+//	                             interleaved with T = "the queued timer goroutines run" in the given order:
+//	                             rat = R, A, T (stale timer meets the re-added key), rta = R, T, A, tra = T, R, A
+//	                                                         -> rem=<item|nil|-> add=<item> <t|f> slept=<ms>
 //	hclear <0|1> <ms>            same window, then Clear's loop (removeInternal for every key, then
 //	                             the callbacks) re-enacted by the harness around the real removeInternal -> slept=<ms>
 //
@@ -235,6 +243,61 @@ func (h *tcache) Op(f []string) string {
 		h.gone(v, ok)
 		settle()
 		return fmt.Sprintf("%s slept=%d", tcShowItem(v, ok), slept) + h.tail()
+	case "hrace":
+		k, it := tcAtoi(f[1]), tcAtoi(f[2])
+		order, how := f[4], f[5]
+		prev := runtime.GOMAXPROCS(1)
+		h.c.VerifLock()
+		slept := h.holdAndSleep(tcAtoi(f[3]))
+		h.c.VerifUnlock()
+		// let the queued timer goroutines (and only them) run: they are the only other runnable goroutines
+		yield := func() {
+			for i := 0; i < 64; i++ {
+				runtime.Gosched()
+			}
+		}
+		rem := "-"
+		doR := func() {
+			switch how {
+			case "r":
+				v, ok := h.c.Remove(k)
+				h.gone(v, ok)
+				rem = tcShowItem(v, ok)
+			case "c0":
+				h.c.Clear(false)
+			default:
+				h.c.Clear(true)
+			}
+			if how != "r" {
+				for _, e := range h.ents {
+					e.alive = false
+				}
+			}
+		}
+		var av any
+		var aok bool
+		doA := func() {
+			av, aok = h.c.Add(k, it, h.cb(it))
+			if aok {
+				h.ents = append(h.ents, &tcEntry{key: k, item: it, deadline: h.now() + h.timeout, alive: true})
+			}
+		}
+		switch order {
+		case "rat":
+			doR()
+			doA()
+		case "rta":
+			doR()
+			yield()
+			doA()
+		default:
+			yield()
+			doR()
+			doA()
+		}
+		runtime.GOMAXPROCS(prev)
+		settle()
+		return fmt.Sprintf("rem=%s add=%v %s slept=%d", rem, av, tcTf(aok), slept) + h.tail()
 	case "hclear":
 		h.c.VerifLock()
 		slept := h.holdAndSleep(tcAtoi(f[2]))
